@@ -9,7 +9,11 @@ Tie to the code, evaluated inside Coq (Check/C09chk.v):
   * stream probe : one schema string at one emission site: the literal text the real generator wrote
                    against the model's `emit`, and what CPython reads back against the model's `lex_tok`;
   * stream class : whole classes of the modelled fragment: real generated source against
-                   `render (class_toks c)`, model prediction against compile/exec/back-mapping.
+                   `render (class_toks c)`, model prediction against compile/exec/back-mapping; the required list
+                   structure_to_schema returns against `back_required (final_required ..)`;
+  * stream module: (main schema, definitions referring to each other) through write_code_from_schema (harness/c09mod.py):
+                   the written file against `render (module_toks ..)` under the GENERATED layout Gen/ModuleLayout.v,
+                   CPython's NameError (which name) against `first_unbound`.
 Spec clauses evaluated on the implementation alone (these give the replays): generated source compiles,
 executes to Structure classes, structure_to_schema of them returns the input schema up to key order
 and required order, the caller's schema is left intact, the docstring carries the description; on the
@@ -18,9 +22,11 @@ import ast
 import copy
 import io
 import json
+import os
 import random
 import re
 import subprocess
+import sys
 import tokenize
 import warnings
 
@@ -465,8 +471,12 @@ def gen_field(rnd, depth, defs, hotness, ext, prop=False):
             sch["minimum"] = rnd.choice([0, 1, -5, 2.5]) if sch["type"] == "number" else rnd.choice([0, 1, -5])
         if rnd.random() < 0.4:
             sch["maximum"] = rnd.choice([10, 100, 7.25]) if sch["type"] == "number" else rnd.choice([10, 100])
+            if rnd.random() < 0.3:
+                sch["exclusiveMaximum"] = True
+        if ext and "minimum" in sch and rnd.random() < 0.25:
+            sch["exclusiveMinimum"] = True
         if prop and rnd.random() < 0.2:
-            sch["default"] = sch.get("minimum", sch.get("maximum", 3))
+            sch["default"] = sch.get("minimum", 3) if not sch.get("exclusiveMaximum") else 3
     elif r < 0.38:
         sch = {"type": "boolean"}
         if prop and rnd.random() < 0.2:
@@ -529,6 +539,8 @@ def gen_field(rnd, depth, defs, hotness, ext, prop=False):
                 sch["default"] = {clean_json_str(gen_payload(rnd, hotness)): 0}
         elif ext and rnd.random() < 0.3:
             sch["additionalProperties"] = False
+        if ext and rnd.random() < 0.2:
+            sch[rnd.choice(["minProperties", "maxProperties"])] = rnd.randint(1, 3)
     if ext and rnd.random() < 0.04 and "$ref" not in sch:
         sch["description"] = gen_payload(rnd, hotness)
     return sch
@@ -540,6 +552,11 @@ def clean_json_str(s):
 
 
 def gen_class_schema(rnd, hotness, ext):
+    if ext and rnd.random() < 0.05:
+        # a top-level schema that is not an object (the generator's `wrapped` convention)
+        sch = rnd.choice([{"type": "string", "maxLength": 5}, {"type": "integer", "minimum": 0}, {"enum": ["a", "b", 3]},
+                          {"type": "array", "items": {"type": "integer"}}])
+        return "Gen%d" % rnd.randint(0, 10 ** 6), copy.deepcopy(sch), {}
     defs = {}
     for i in range(rnd.choice([0, 0, 1, 2])):
         dn = "Def%d" % i
@@ -615,7 +632,7 @@ def to_field(sch):
         if set(sch) != {"$ref"} or not sch["$ref"].startswith("#/definitions/"):
             raise Unmodelled("$ref with siblings")
         return ("ref", sch["$ref"][len("#/definitions/"):])
-    known = {"type", "minLength", "maxLength", "pattern", "default", "minimum", "maximum", "enum", "items",
+    known = {"type", "minLength", "maxLength", "pattern", "default", "minimum", "maximum", "exclusiveMaximum", "enum", "items",
              "uniqueItems", "additionalItems", "allOf", "anyOf", "oneOf", "not", "properties", "required",
              "additionalProperties"}
     if set(sch) - known:
@@ -639,9 +656,10 @@ def to_field(sch):
             raise Unmodelled("string keywords")
         return ("string", nums(sch, ["minLength", "maxLength"]), sch.get("pattern"), to_default(sch))
     if t in ("integer", "number"):
-        if set(sch) - {"type", "minimum", "maximum", "default"}:
+        if set(sch) - {"type", "minimum", "maximum", "exclusiveMaximum", "default"}:
             raise Unmodelled("number keywords")
-        return ("numeric", "Integer" if t == "integer" else "Number", nums(sch, ["minimum", "maximum"]), to_default(sch))
+        return ("numeric", "Integer" if t == "integer" else "Number",
+                nums(sch, ["minimum", "maximum", "exclusiveMaximum"]), to_default(sch))
     if t == "boolean":
         if set(sch) - {"type", "default"}:
             raise Unmodelled("boolean keywords")
@@ -807,14 +825,17 @@ def diff_field(inp, back, where, out):
     typ = inp.get("type") or next((k for k in ("enum", "$ref", "allOf", "anyOf", "oneOf", "not") if k in inp), "object")
     if typ == "object":
         typ = "object" if "properties" in inp else "map"
-    if typ == "object" and ("properties" not in back or set(back["properties"]) != set(inp.get("properties", {}))):
+    if typ == "object":
         names = list(inp.get("properties", {}))
         if len(names) == 1 and set(inp.get("required", names)) == set(names) and inp.get("additionalProperties", True) is False:
+            # this shape is always collapsed into its property's schema (which may itself be an object with a
+            # property of the same name): every difference here has that root cause
             out.append(("C09/back/object/single-required-closed-collapsed",
                         "nested object %r mapped back as %r" % (inp, back)))
-        else:
+            return
+        if "properties" not in back or set(back["properties"]) != set(names):
             out.append(("C09/back/object/shape", "nested object %r mapped back as %r" % (inp, back)))
-        return
+            return
     for k in sorted(set(inp) | set(back)):
         a, b = inp.get(k, None), back.get(k, None)
         if k in inp and k in back and a == b:
@@ -909,20 +930,28 @@ def class_spec(name, sch, defs, probe_disc):
         # definitions referenced by the class come back in the second component
         if dn in b[2] and norm_schema(d) != norm_schema(b[2][dn]):
             diff_field(norm_schema(d), norm_schema(b[2][dn]), "definition", diffs)
+    # a string that a RAW site (wrap_val / pasted docstring) writes wrongly can swallow the text after it and still
+    # compile (default 'a\\' eats the closing quote and the next parameter): the source is then not the intended token
+    # sequence, and every structural difference of this schema has that (reported) lexical root cause
+    raw_broken = bool(explained & {"pattern", "default", "description"})
     for k, w in diffs:
         m = re.match(r"C09/back/\w+/(pattern|default|enum)/changed", k)
-        if m and ({"pattern": "pattern", "default": "default", "enum": "enum"}[m.group(1)] in explained
-                  or (m.group(1) == "default" and "default_container" in explained)):
+        if raw_broken or (m and ({"pattern": "pattern", "default": "default", "enum": "enum"}[m.group(1)] in explained
+                                 or (m.group(1) == "default" and "default_container" in explained))):
             continue
         fails.append((k, w))
     return fails, ("ok" if not fails else "differs"), code
 
 
 def top_diff(want, got, out):
+    if want.get("type", "object") != "object" or "properties" not in want:
+        out.append(("C09/back/class/non-object-schema",
+                    "schema %r is generated as a class with a single property 'wrapped' and mapped back as %r" % (want, got)))
+        return
     names = list(want.get("properties", {}))
     collapsed_shape = (len(names) == 1 and set(want.get("required", names)) == set(names)
                        and want.get("additionalProperties") is False)
-    if collapsed_shape and (got.get("type") != "object" or set(got.get("properties", {})) != set(names)):
+    if collapsed_shape:
         out.append(("C09/back/class/single-required-closed-collapsed",
                     "class schema %r mapped back as %r" % (want, got)))
         return
@@ -1006,6 +1035,8 @@ def exact_field(rnd, depth):
             s["minimum"] = rnd.randint(0, 2)
         if rnd.random() < 0.6:
             s["maximum"] = rnd.randint(3, 5)
+            if rnd.random() < 0.35:
+                s["exclusiveMaximum"] = True
         return s
     if r < 0.45:
         s = {"type": "number"}
@@ -1013,6 +1044,8 @@ def exact_field(rnd, depth):
             s["minimum"] = rnd.choice([0, 0.5])
         if rnd.random() < 0.6:
             s["maximum"] = rnd.choice([3, 2.5])
+            if rnd.random() < 0.35:
+                s["exclusiveMaximum"] = True
         return s
     if r < 0.5:
         return {"type": "boolean"}
@@ -1115,6 +1148,46 @@ def gen_docs(sch, rnd, n):
     return docs
 
 
+def balanced_docs(rnd, schemas, n):
+    """Documents for each (inlined) object schema: ~45% meant valid (every property takes a value the validator
+    accepts for that property alone), ~30% with exactly one property at an invalid neighbour, the rest with a
+    missing required / an undeclared property / independent random neighbours.  The per-property verdicts come
+    from the independent validator in one batch."""
+    pers = [{k: near_values(v, rnd) for k, v in sch["properties"].items()} for sch in schemas]
+    items = [{"schema": {"type": "object", "properties": {"p": sch["properties"][k]}}, "docs": [{"p": x} for x in vals]}
+             for sch, per in zip(schemas, pers) for k, vals in per.items()]
+    verdicts, _ = run_validator(items) if items else ([], "")
+    if verdicts is None or any(isinstance(v, str) for v in verdicts):
+        return [gen_docs(sch, rnd, n) for sch in schemas]
+    out, idx = [], 0
+    for sch, per in zip(schemas, pers):
+        good, bad = {}, {}
+        for k, vals in per.items():
+            vs = verdicts[idx]
+            idx += 1
+            good[k] = [x for x, f in zip(vals, vs) if f]
+            bad[k] = [x for x, f in zip(vals, vs) if not f]
+        docs = []
+        for _ in range(n):
+            r = rnd.random()
+            d = {}
+            for k in sch["properties"]:
+                if k in sch["required"] or rnd.random() < 0.6:
+                    d[k] = copy.deepcopy(rnd.choice(per[k] if r >= 0.93 else (good[k] or per[k])))
+            if 0.45 <= r < 0.75:
+                ks = [k for k in d if bad[k]]
+                if ks:
+                    k = rnd.choice(ks)
+                    d[k] = copy.deepcopy(rnd.choice(bad[k]))
+            elif 0.75 <= r < 0.84 and sch["required"]:
+                d.pop(rnd.choice(sch["required"]), None)
+            elif 0.84 <= r < 0.93:
+                d["extra_"] = 1
+            docs.append(d)
+        out.append(docs)
+    return out
+
+
 VALIDATOR_SRC = r"""
 import json, sys
 from jsonschema import Draft4Validator
@@ -1193,10 +1266,44 @@ def replay(obj):
         if not still:
             print("the clause reported in this replay holds now")
         return 1 if still else 0
+    if kind == "module":
+        from harness import c09mod as M
+        name, sch, defs = obj["name"], obj["schema"], obj["definitions"]
+        d = core.workdir("c09replay")
+        try:
+            fails, tag, text, ran = M.module_spec(sys.modules[__name__], name, copy.deepcopy(sch), copy.deepcopy(defs),
+                                                  dict(_site_table()), os.path.join(d, "generated_c09_module.py"))
+        finally:
+            core.cleanup(d)
+        print("schema     :", sch)
+        print("definitions:", defs)
+        print("written by write_code_from_schema:\n%s" % text)
+        print("required   : the file compiles and executes; main class and reached definitions are Structure classes; "
+              "structure_to_schema returns the schema and definitions")
+        print("observed   :", tag, ran or "")
+        for k, w in fails:
+            print("FAILS      :", k, "-", w)
+        want = obj.get("finding_key")
+        still = [k for k, _ in fails if want is None or want.startswith("broken:") or k == want]
+        if not still:
+            print("the clause reported in this replay holds now")
+        return 1 if still else 0
     if kind == "docs":
         sch, doc = obj["schema"], obj["doc"]
-        r = run_generator("R", copy.deepcopy(sch), {})
-        x = exec_code(r[1]) if r[0] == "ok" else ("raise",)
+        if obj.get("definitions"):
+            from harness import c09mod as M
+            d = core.workdir("c09replay")
+            try:
+                path = os.path.join(d, "generated_c09_docs.py")
+                r = M.run_module("R", copy.deepcopy(obj["main"]), copy.deepcopy(obj["definitions"]), path)
+                x = M.exec_module(r[1], path) if r[0] == "ok" else ("raise",)
+            finally:
+                core.cleanup(d)
+            print("definitions:", obj["definitions"])
+            sch = obj["main"]
+        else:
+            r = run_generator("R", copy.deepcopy(sch), {})
+            x = exec_code(r[1]) if r[0] == "ok" else ("raise",)
         if x[0] != "ok":
             print("generated class cannot be built:", x)
             return 1
@@ -1239,6 +1346,8 @@ def run(rep, tier):
     n_lex = 700 if quick else 6000
     n_class = 320 if quick else 3000
     n_doc_classes = 60 if quick else 500
+    n_module = 260 if quick else 2600
+    n_doc_modules = 50 if quick else 400
     proofs_ok, model_ok = core.standard_proof_obligations(
         rep, "C09", ["theories/Check/C09chk.vo", "theories/Schema/CodeGenProofs.vo"])
     rep.assumptions += [
@@ -1247,6 +1356,9 @@ def run(rep, tier):
         "str.isprintable and the keyword list are those of the running CPython (instantiated per shard / generated)",
         "class correspondence on the modelled fragment (string, integer/number, boolean, enum, $ref, array, allOf/anyOf/oneOf/not, "
         "nested object, map with value schema, scalar/list/dict defaults); other keywords are exercised by the spec clauses only",
+        "module name resolution: class bodies evaluate field expressions eagerly and in textual order; the names bound by "
+        "`from typedpy import *` are disjoint from the definition names of the modelled stream (a definition that shadows one "
+        "is judged by the spec clauses only)",
     ]
     table = _site_table()
     disc = dict(table)
@@ -1335,7 +1447,7 @@ def run(rep, tier):
         fails, tag, code = class_spec(name, copy.deepcopy(sch), copy.deepcopy(defs), disc)
         rep.stat("class", "outcome:" + tag)
         shape = tuple(sorted({k.split("/")[1] + "/" + k.split("/")[2] for k, _ in fails})) or ("clean",)
-        rep.count("class", 1, (tag, shape, len(sch["properties"])))
+        rep.count("class", 1, (tag, shape, len(sch.get("properties", {}))))
         for k, w in fails:
             rep.finding(k, w, {"kind": "class", "name": name, "schema": sch, "definitions": defs,
                                "python": class_python(name, sch, defs)})
@@ -1344,17 +1456,30 @@ def run(rep, tier):
         except Unmodelled:
             model = None
             n_unmodelled += 1
-        classes.append((name, sch, defs, model, code, tag, [k for k, _ in fails]))
+        back_req = None
+        collapsible = len(sch.get("properties", {})) == 1 and sch.get("additionalProperties", True) is False
+        if model is not None and tag in ("ok", "differs") and not collapsible:
+            r2 = run_generator(name, copy.deepcopy(sch), copy.deepcopy(defs))
+            x2 = exec_code(r2[1], r2[2]) if r2[0] == "ok" else ("raise",)
+            b2 = back_map(x2[1], name) if x2[0] == "ok" else ("raise",)
+            if b2[0] == "ok" and b2[1].get("type") == "object" and isinstance(b2[1].get("required"), list) \
+                    and set(b2[1].get("properties", {})) == set(sch["properties"]):
+                back_req = b2[1]["required"]
+        classes.append((name, sch, defs, model, code, tag, [k for k, _ in fails], back_req))
     rep.cov["streams"]["class"]["outside_modelled_fragment"] = n_unmodelled
     ex = next((c for c in classes if c[5] == "ok" and c[3] is not None), classes[0])
     rep.sample({"stream": "class", "schema": ex[1], "generated": ex[4]})
 
+    # ------------------------------------------------------------ modules: write_code_from_schema, schema_definitions_to_code
+    modules = run_modules(rep, rnd, disc, n_module)
+
     # ------------------------------------------------------------ documents near the boundary
     run_documents(rep, rnd, n_doc_classes)
+    run_module_documents(rep, rnd, n_doc_modules)
 
     # ------------------------------------------------------------ correspondence in Coq
     if model_ok:
-        coq_correspondence(rep, probes, lexcases, classes)
+        coq_correspondence(rep, probes, lexcases, classes, modules)
     if unrecognised_ok and not any(not v["no_input"] for v in rep.violations):
         rep.broken("regen:Gen/EmitSites.v", "the emission sites %s are no longer recognised by harness/gen.py (fail closed) and "
                    "the witness strings are emitted correctly: the table cannot vouch for them" % unrecognised_ok,
@@ -1365,12 +1490,68 @@ def run(rep, tier):
     return rep.finish(
         rule="probe = (emission site, string over {plain, quote, double quote, backslash, newline, triple quote, "
              "non-ASCII, escapes, rare control/surrogate}) on a minimal schema; lexer = random literal text; class = seeded "
-             "schemas over the supported keyword set with string payloads from the same alphabet; documents = values at "
-             "each bound of each keyword. distinct = distinct (site, trigger class, outcome) / literal texts / "
-             "(outcome, finding shapes, size)")
+             "schemas over the supported keyword set with string payloads from the same alphabet; module = every "
+             "(reference position x holder x spare definition) deterministically + seeded definition DAGs (declared in "
+             "dependency order / shuffled / recursive) through write_code_from_schema and the string entry points; "
+             "documents = per property a value the validator accepts or one neighbour it rejects, at each bound of each "
+             "keyword, with and without $ref into definitions. distinct = distinct (site, trigger class, outcome) / "
+             "literal texts / (outcome, finding shapes, size) / (shape, outcome, reference positions, #definitions)")
 
 
-def coq_correspondence(rep, probes, lexcases, classes):
+def run_modules(rep, rnd, disc, n_random):
+    """Stream "module": (main schema, definitions) through write_code_from_schema and the string entry points."""
+    from harness import c09mod as M
+    P = sys.modules[__name__]
+    layout, joiner = M_layout()
+    rep.cov["module_layout"] = {"layout": layout, "joiner": joiner}
+    rep.obligation("regen:Gen/ModuleLayout.v", layout is not None and joiner is not None,
+                   "write_code_from_schema: %s; schema_definitions_to_code joiner: %r" % (
+                       "unrecognised" if layout is None else " | ".join(
+                           ("" if c == "always" else "if definitions: ") + (l[0] if l[0] != "const" else repr(l[1]))
+                           for c, l in layout), joiner))
+    d = core.workdir("c09mod")
+    path = os.path.join(d, "generated_c09_module.py")
+    out = []
+    try:
+        cases = [(n, s, df, tag, True) for n, s, df, tag in M.lattice(P)]
+        for _ in range(n_random):
+            ext = rnd.random() < 0.25
+            hotness = rnd.choice([0.0, 0.0, 0.15, 0.4])
+            n, s, df, shape = M.gen_module(rnd, P, hotness, ext)
+            cases.append((n, s, df, "random:" + shape, False))
+        for name, sch, defs, tag, is_lattice in cases:
+            fails, outcome, text, ran = M.module_spec(P, name, copy.deepcopy(sch), copy.deepcopy(defs), disc, path)
+            rep.stat("module", "outcome:" + outcome)
+            rep.stat("module", "shape:" + (tag if not is_lattice else "lattice"))
+            rep.stat("module", "definitions:%d" % len(defs))
+            positions = sorted({M.position_key(p) + ("@main" if i == 0 else "@definition")
+                                for i, owner in enumerate([sch] + list(defs.values())) for _, p in M.walk_refs(owner)})
+            for p in positions:
+                rep.stat("module", "ref-position:" + p)
+            unref = [dn for dn in defs if dn not in M.reachable(sch, defs)]
+            rep.stat("module", "unreferenced-definitions:" + ("yes" if unref else "no"))
+            rep.count("module", 1, tag if is_lattice else (tag, outcome, tuple(positions), len(defs)))
+            for k, w in fails:
+                rep.finding(k, w, {"kind": "module", "name": name, "schema": sch, "definitions": defs,
+                                   "python": M.module_python(name, sch, defs)})
+            out.append((name, sch, defs, M.to_model(P, name, sch, defs), text, ran, outcome, tag))
+    finally:
+        core.cleanup(d)
+    rep.cov["streams"]["module"]["outside_modelled_fragment"] = sum(1 for m in out if m[3] is None)
+    ex = next((m for m in out if m[6] == "ok" and m[3] is not None and len(m[2]) >= 2), out[0])
+    rep.sample({"stream": "module", "schema": ex[1], "definitions": ex[2], "written": ex[4]})
+    return out
+
+
+def M_layout():
+    from harness.genmods import module_layout as gen
+    try:
+        return gen.module_layout()
+    except Exception:  # noqa
+        return None, None
+
+
+def coq_correspondence(rep, probes, lexcases, classes, modules=()):
     per = 300
     shards = []
     kinds = []
@@ -1410,17 +1591,48 @@ def coq_correspondence(rep, probes, lexcases, classes):
         body += "Eval vm_compute in (indices_where class_bad_sep cases 0).\n"
         body += "Eval vm_compute in (indices_where class_predicted_ok cases 0).\n"
         body += "Eval vm_compute in (indices_where class_real_relex_ok cases 0).\n"
+        reqs = [(c[3], c[7]) for c in chunk if c[7] is not None]
+        body += "Definition reqcases : list reqcase := %s.\n" % E.lst(
+            ["\n (%s, %s)" % (c_class(m), E.lst([E.pstr(x) for x in br])) for m, br in reqs])
+        body += "Eval vm_compute in (indices_where required_mismatch reqcases 0).\n"
+        body += "Eval vm_compute in (indices_where required_theorem_violated reqcases 0).\n"
+        body += "Eval vm_compute in (length (filter required_hypotheses reqcases), length reqcases).\n"
         shards.append(body)
         kinds.append(("class", s0))
+    from harness import c09mod as M
+    P = sys.modules[__name__]
+    mmod = [m for m in modules if m[3] is not None]
+    mper = 50
+    for s0 in range(0, len(mmod), mper):
+        chunk = mmod[s0:s0 + mper]
+        strs = []
+        for m in chunk:
+            strs.append(m[4] or "")
+            for owner in [m[1]] + list(m[2].values()):
+                strs += [s for _, s in schema_leaves(owner)]
+        body = printable_def(strs)
+        items = [M.c_modcase(P, m[3], m[4], m[5]) for m in chunk]
+        body += "Definition cases : list modcase := %s.\n" % E.lst(["\n " + i for i in items])
+        body += "Eval vm_compute in (indices_where (module_mismatch printable) cases 0).\n"
+        body += "Eval vm_compute in (indices_where module_names_mismatch cases 0).\n"
+        body += "Eval vm_compute in (indices_where module_bad_sep cases 0).\n"
+        body += "Eval vm_compute in (indices_where module_predicted_ok cases 0).\n"
+        body += "Eval vm_compute in (indices_where module_sites_predicted_ok cases 0).\n"
+        body += "Eval vm_compute in (indices_where module_real_relex_ok cases 0).\n"
+        shards.append(body)
+        kinds.append(("module", s0))
     res = core.eval_cases(shards, "c09", HEADER)
-    mism = {"probe-emit": [], "probe-lex": [], "probe-theorem": [], "lexer": [], "class": [], "class-sep": []}
+    mism = {"probe-emit": [], "probe-lex": [], "probe-theorem": [], "lexer": [], "class": [], "class-sep": [],
+            "module": [], "module-names": [], "module-sep": []}
+    mod_names_ok, mod_sites_ok, mod_relex_ok = set(), set(), set()
+    req_bad, req_thm_bad, req_hyp = [], [], [0, 0]
     model_ok_probe = set()
     predicted_ok, relex_ok = set(), set()
     bad = None
     bad_kinds = set()
     for (kind, s0), (rc, out, err) in zip(kinds, res):
         vals = core.parse_eval(out)
-        want = {"probe": 4, "lexer": 2, "class": 4}[kind]
+        want = {"probe": 4, "lexer": 2, "class": 7, "module": 6}[kind]
         if rc != 0 or len(vals) != want:
             bad = bad or (kind, s0, (out + err)[-1200:])
             bad_kinds.add(kind)
@@ -1432,11 +1644,24 @@ def coq_correspondence(rep, probes, lexcases, classes):
             model_ok_probe |= {s0 + i for i in core.parse_nat_list(vals[3])}
         elif kind == "lexer":
             mism["lexer"] += [s0 + i for i in core.parse_nat_list(vals[0])]
+        elif kind == "module":
+            mism["module"] += [s0 + i for i in core.parse_nat_list(vals[0])]
+            mism["module-names"] += [s0 + i for i in core.parse_nat_list(vals[1])]
+            mism["module-sep"] += [s0 + i for i in core.parse_nat_list(vals[2])]
+            mod_names_ok |= {s0 + i for i in core.parse_nat_list(vals[3])}
+            mod_sites_ok |= {s0 + i for i in core.parse_nat_list(vals[4])}
+            mod_relex_ok |= {s0 + i for i in core.parse_nat_list(vals[5])}
         else:
             mism["class"] += [s0 + i for i in core.parse_nat_list(vals[0])]
             mism["class-sep"] += [s0 + i for i in core.parse_nat_list(vals[1])]
             predicted_ok |= {s0 + i for i in core.parse_nat_list(vals[2])}
             relex_ok |= {s0 + i for i in core.parse_nat_list(vals[3])}
+            chunk_req = [c for c in modelled[s0:s0 + cper] if c[7] is not None]
+            req_bad += [chunk_req[i] for i in core.parse_nat_list(vals[4])]
+            req_thm_bad += [chunk_req[i] for i in core.parse_nat_list(vals[5])]
+            nums_ = [int(t) for t in re.findall(r"\d+", vals[6])]
+            req_hyp[0] += nums_[0]
+            req_hyp[1] += nums_[1]
     if bad is not None:
         rep.broken("correspondence:coq-eval", "case shard %s@%d failed to evaluate: %s" % bad)
     for k in sorted(bad_kinds):
@@ -1479,6 +1704,37 @@ def coq_correspondence(rep, probes, lexcases, classes):
     rep.obligation("correspondence:class-prediction", not cls_bad,
                    "%d classes, %d where model prediction, model read-back of the real source and real compile disagree"
                    % (len(modelled), len(cls_bad)))
+    rep.obligation("correspondence:required-roundtrip", not req_bad,
+                   "%d classes mapped back, %d where structure_to_schema's required differs (as a set) from the model's "
+                   "back_required(final_required)" % (req_hyp[1], len(req_bad)))
+    rep.obligation("instantiated:C09_required_roundtrip", not req_thm_bad,
+                   "%d classes satisfy the hypotheses (every defaulted property listed, no duplicates); %d of them "
+                   "contradict the theorem's conclusion on the implementation" % (req_hyp[0], len(req_thm_bad)))
+    # modules: text, name resolution, lexical prediction
+    rep.obligation("correspondence:module-source", not mism["module"],
+                   "%d modules of the modelled fragment (%d with definitions), %d where the file written by "
+                   "write_code_from_schema differs from render(module_toks) under the generated layout"
+                   % (len(mmod), sum(1 for m in mmod if m[2]), len(mism["module"])))
+    n_ran = sum(1 for m in mmod if m[5] is not None)
+    rep.obligation("correspondence:module-name-resolution", not mism["module-names"],
+                   "%d executed modules (%d NameError), %d where CPython and the model's first_unbound/names_ok disagree"
+                   % (n_ran, sum(1 for m in mmod if m[5] is not None and m[5][0] == "nameerror"), len(mism["module-names"])))
+    rep.obligation("hypothesis:well_sep(module)", not mism["module-sep"],
+                   "%d modules, %d not well separated" % (len(mmod), len(mism["module-sep"])))
+    mod_bad = []
+    for i, m in enumerate(mmod):
+        if m[4] is None:
+            continue
+        compiled = m[6] != "no-compile"
+        if (i in mod_relex_ok) and not compiled:
+            mod_bad.append(i)
+        if (i in mod_sites_ok) != (i in mod_relex_ok):
+            mod_bad.append(i)
+    rep.obligation("correspondence:module-prediction", not mod_bad,
+                   "%d modules, %d where model prediction, model read-back of the written file and real compile disagree"
+                   % (len(mmod), len(mod_bad)))
+    rep.cov["streams"].setdefault("module", {})["model_predicts_executes"] = len(mod_names_ok)
+    rep.cov["streams"].setdefault("module", {})["model_predicts_reads_back"] = len(mod_sites_ok)
     have_concrete = any(not v["no_input"] for v in rep.violations)
 
     def report(stream, idx, payload):
@@ -1500,11 +1756,20 @@ def coq_correspondence(rep, probes, lexcases, classes):
         idx = mism["class"] or cls_bad or mism["class-sep"]
         c = modelled[idx[0]]
         report("class", idx, {"kind": "class", "name": c[0], "schema": c[1], "definitions": c[2], "generated": c[4]})
+    if req_bad or req_thm_bad:
+        c = (req_bad or req_thm_bad)[0]
+        report("required-roundtrip", req_bad or req_thm_bad,
+               {"kind": "class", "name": c[0], "schema": c[1], "definitions": c[2], "mapped_back_required": c[7]})
+    if mism["module"] or mism["module-names"] or mism["module-sep"] or mod_bad:
+        idx = mism["module"] or mism["module-names"] or mod_bad or mism["module-sep"]
+        m = mmod[idx[0]]
+        report("module", idx, {"kind": "module", "name": m[0], "schema": m[1], "definitions": m[2], "written": m[4],
+                               "ran": list(m[5]) if m[5] else None})
 
 
 def run_documents(rep, rnd, n_classes):
     from typedpy import Structure  # noqa
-    items, built = [], []
+    built = []
     for i in range(n_classes):
         sch = exact_class(rnd)
         r = run_generator("D%d" % i, copy.deepcopy(sch), {})
@@ -1517,41 +1782,111 @@ def run_documents(rep, rnd, n_classes):
             rep.finding("C09/exec/unexplained/" + str(x[1])[:30], "exact-fragment schema does not build: %r" % (x,),
                         {"kind": "class", "name": "D%d" % i, "schema": sch, "definitions": {}})
             continue
-        docs = gen_docs(sch, rnd, 12)
-        items.append({"schema": sch, "docs": docs})
-        built.append((sch, docs, x[1]["D%d" % i]))
+        built.append((sch, sch, None, x[1]["D%d" % i], {}))
+    all_docs = balanced_docs(rnd, [b[1] for b in built], 12)
+    built = [(vs, inl, docs, cls, extra) for (vs, inl, _, cls, extra), docs in zip(built, all_docs)]
+    judge_documents(rep, built, "documents")
+
+
+def inline_refs(s, defs, depth=0):
+    """The schema with every $ref replaced by the definition it names (acyclic definitions)."""
+    if depth > 12:
+        raise ValueError("cyclic definitions")
+    if isinstance(s, list):
+        return [inline_refs(x, defs, depth) for x in s]
+    if not isinstance(s, dict):
+        return s
+    if isinstance(s.get("$ref"), str):
+        return inline_refs(defs[s["$ref"][len("#/definitions/"):]], defs, depth + 1)
+    out = {}
+    for k, v in s.items():
+        if k == "properties" and isinstance(v, dict):
+            out[k] = {n: inline_refs(x, defs, depth) for n, x in v.items()}
+        elif k in ("default", "enum", "required"):
+            out[k] = v
+        else:
+            out[k] = inline_refs(v, defs, depth)
+    return out
+
+
+def run_module_documents(rep, rnd, n_modules):
+    """Exact-fragment schemas WITH definitions, built through write_code_from_schema; the validator resolves the
+    $refs itself (schema + "definitions"), documents are generated from the inlined schema."""
+    from harness import c09mod as M
+    d = core.workdir("c09moddoc")
+    path = os.path.join(d, "generated_c09_docs.py")
+    built = []
+    try:
+        for i in range(n_modules):
+            name = "MD%d" % i
+            dnames = rnd.sample(["Addr", "Pt", "Unit"], rnd.choice([1, 1, 2, 3]))
+            defs = {}
+            for j, dn in enumerate(dnames):
+                props = {n: exact_field(rnd, 1) for n in rnd.sample(["u", "v", "w"], 2)}
+                if j > 0 and rnd.random() < 0.6:
+                    props["r"] = M.ref_at(rnd.choice(M.DOC_POSITIONS), rnd.choice(dnames[:j]))
+                req = [n for n in props if rnd.random() < 0.6] or [sorted(props)[0]]
+                defs[dn] = {"type": "object", "properties": props, "required": req,
+                            "additionalProperties": rnd.choice([True, False])}
+            sch = exact_class(rnd)
+            pnames = list(sch["properties"])
+            for n in rnd.sample(pnames, rnd.randint(1, len(pnames))):
+                pos = rnd.choice(M.DOC_POSITIONS)
+                sch["properties"][n] = M.ref_at(pos, rnd.choice(dnames))
+                rep.stat("module-documents", "ref-position:" + pos)
+            r = M.run_module(name, copy.deepcopy(sch), copy.deepcopy(defs), path)
+            x = M.exec_module(r[1], path) if r[0] == "ok" else r
+            if x[0] != "ok" or not M.is_structure(x[1].get(name)):
+                rep.finding("C09/module/exec/unexplained/exact-fragment",
+                            "exact-fragment schema with definitions does not build through write_code_from_schema: %r" % (x[:3],),
+                            {"kind": "module", "name": name, "schema": sch, "definitions": defs,
+                             "python": M.module_python(name, sch, defs)})
+                continue
+            inl = inline_refs(sch, defs)
+            built.append((dict(sch, definitions=defs), inl, None, x[1][name], {"definitions": defs, "name": name, "main": sch}))
+    finally:
+        core.cleanup(d)
+    all_docs = balanced_docs(rnd, [b[1] for b in built], 12)
+    built = [(vs, inl, docs, cls, extra) for (vs, inl, _, cls, extra), docs in zip(built, all_docs)]
+    judge_documents(rep, built, "module-documents")
+
+
+def judge_documents(rep, built, stream):
+    """built: [(schema given to the validator, the same schema without $ref, documents, generated class, replay extras)]"""
+    items = [{"schema": vs, "docs": docs} for vs, inl, docs, cls, extra in built]
     verdicts, err = run_validator(items)
     if verdicts is None:
-        rep.obligation("oracle:draft4-validator", False, "python3-vt / jsonschema unavailable: " + err)
+        rep.obligation("oracle:draft4-validator(%s)" % stream, False, "python3-vt / jsonschema unavailable: " + err)
         rep.broken("oracle:draft4-validator", "the independent validator could not be run: " + err)
         return
-    rep.obligation("oracle:draft4-validator", True, "%d schemas validated by jsonschema.Draft4Validator (python3-vt)" % len(items))
+    rep.obligation("oracle:draft4-validator(%s)" % stream, True,
+                   "%d schemas validated by jsonschema.Draft4Validator (python3-vt)" % len(items))
     pending = []
-    for (sch, docs, cls), vs in zip(built, verdicts):
-        if isinstance(vs, str):
-            rep.broken("oracle:schema-rejected", "the validator rejects a generated schema: %s %r" % (vs, sch))
+    for (vs, sch, docs, cls, extra), vds in zip(built, verdicts):
+        if isinstance(vds, str):
+            rep.broken("oracle:schema-rejected", "the validator rejects a generated schema: %s %r" % (vds, vs))
             continue
-        for d, v in zip(docs, vs):
+        for d, v in zip(docs, vds):
             acc, why = class_accepts(cls, d)
-            rep.count("documents", 1, (json.dumps(d, sort_keys=True, default=str)[:60], v))
-            rep.stat("documents", ("valid" if v else "invalid") + "/" + ("accepted" if acc else "rejected"))
+            rep.count(stream, 1, (json.dumps(d, sort_keys=True, default=str)[:60], v))
+            rep.stat(stream, ("valid" if v else "invalid") + "/" + ("accepted" if acc else "rejected"))
             if why and why.startswith("other:"):
                 rep.finding("C09/equiv/error-class/" + why[6:], "deserializing %r raised %s" % (d, why[6:]),
-                            {"kind": "docs", "schema": sch, "doc": d, "validator": v})
+                            dict({"kind": "docs", "schema": sch, "doc": d, "validator": v}, **extra))
             elif acc != v:
-                pending.append((sch, d, v, acc, cls))
+                pending.append((sch, d, v, acc, cls, extra))
     # narrow each disagreement: which repair of the document makes the two sides agree?
-    items2 = [{"schema": sch, "docs": [x for _, x in repairs(sch, d)]} for sch, d, v, acc, cls in pending]
+    items2 = [{"schema": sch, "docs": [x for _, x in repairs(sch, d)]} for sch, d, v, acc, cls, extra in pending]
     verdicts2, err = run_validator(items2) if items2 else ([], "")
     keys = {}
-    for n, (sch, d, v, acc, cls) in enumerate(pending):
+    for n, (sch, d, v, acc, cls, extra) in enumerate(pending):
         if verdicts2 is not None and not v and acc:
             for (label, d2), v2 in zip(repairs(sch, d), verdicts2[n]):
                 if d2 != d and v2 and class_accepts(cls, d2)[0]:
                     keys[n] = "class-accepts-invalid/" + label
                     break
     # the rest: isolate the smallest (sub-schema, value) pair on which the two sides differ
-    cands = {n: atomic_candidates(sch, d) for n, (sch, d, v, acc, cls) in enumerate(pending) if n not in keys}
+    cands = {n: atomic_candidates(sch, d) for n, (sch, d, v, acc, cls, extra) in enumerate(pending) if n not in keys}
     flat = [(n, depth, s, val) for n, cs in cands.items() for depth, s, val in cs]
     items3 = [{"schema": {"type": "object", "properties": {"p": s}, "required": ["p"]}, "docs": [{"p": val}]}
               for _, _, s, val in flat]
@@ -1567,17 +1902,38 @@ def run_documents(rep, rnd, n_classes):
         a, _ = class_accepts(x[1]["One"], {"p": val})
         if a != vs[0] and (n not in best or depth > best[n][0]):
             best[n] = (depth, ("class-rejects-valid/" if vs[0] else "class-accepts-invalid/") + field_signature(s, val))
-    for n, (sch, d, v, acc, cls) in enumerate(pending):
+    for n, (sch, d, v, acc, cls, extra) in enumerate(pending):
         key = keys.get(n) or (best[n][1] if n in best else
-                              ("class-rejects-valid" if v else "class-accepts-invalid") + "/unclassified")
+                              ("class-rejects-valid" if v else "class-accepts-invalid") + "/unclassified"
+                              + ("-with-definitions" if extra else ""))
         rep.finding("C09/equiv/" + key,
                     "document %r: draft-4 validator says %s, generated class %s" % (d, "valid" if v else "invalid",
                                                                                       "accepts" if acc else "rejects"),
-                    {"kind": "docs", "schema": sch, "doc": d, "validator": v})
+                    dict({"kind": "docs", "schema": sch, "doc": d, "validator": v}, **extra))
+
+
+def _descend(fn, sch, doc):
+    """apply fn below arrays, map values and the branches of allOf/anyOf/oneOf"""
+    if not isinstance(sch, dict):
+        return doc
+    for k in ("allOf", "anyOf", "oneOf"):
+        for b in sch.get(k, []) or []:
+            if isinstance(b, dict):
+                doc = fn(b, doc)
+    if sch.get("type") == "array" and isinstance(doc, list):
+        it = sch.get("items")
+        if isinstance(it, dict):
+            return [fn(it, x) for x in doc]
+        if isinstance(it, list):
+            return [fn(it[i], x) if i < len(it) else x for i, x in enumerate(doc)]
+    if sch.get("type") == "object" and "properties" not in sch and isinstance(sch.get("additionalProperties"), dict) \
+            and isinstance(doc, dict):
+        return {k: fn(sch["additionalProperties"], v) for k, v in doc.items()}
+    return doc
 
 
 def strip_undeclared(sch, doc):
-    """doc without the keys a closed object schema does not declare (recursively)."""
+    """doc without the keys a closed object schema does not declare (recursively, also inside combinators)."""
     if isinstance(sch, dict) and sch.get("type") == "object" and "properties" in sch and isinstance(doc, dict):
         out = {}
         for k, v in doc.items():
@@ -1586,17 +1942,11 @@ def strip_undeclared(sch, doc):
             elif sch.get("additionalProperties", True) is not False:
                 out[k] = v
         return out
-    if isinstance(sch, dict) and sch.get("type") == "array" and isinstance(doc, list):
-        it = sch.get("items")
-        if isinstance(it, dict):
-            return [strip_undeclared(it, x) for x in doc]
-        if isinstance(it, list):
-            return [strip_undeclared(it[i], x) if i < len(it) else x for i, x in enumerate(doc)]
-    return doc
+    return _descend(strip_undeclared, sch, doc)
 
 
 def strip_null_optional(sch, doc):
-    """doc without the optional properties whose value is null (recursively)."""
+    """doc without the optional properties whose value is null (recursively, also inside combinators)."""
     if isinstance(sch, dict) and sch.get("type") == "object" and "properties" in sch and isinstance(doc, dict):
         out = {}
         for k, v in doc.items():
@@ -1607,7 +1957,7 @@ def strip_null_optional(sch, doc):
             else:
                 out[k] = v
         return out
-    return doc
+    return _descend(strip_null_optional, sch, doc)
 
 
 def repairs(sch, doc):
